@@ -148,6 +148,10 @@ theorem minv_interrupt (s : St) (p : Pid) (h : MInv s) : MInv (interrupt s p) :=
   · rename_i hpc
     have hf : (s.kind p, p) ∈ s.files := h.own p (by simp [hpc, hasFile])
     exact h.move p _ (fun _ => hf) (fun e => by cases e)
+  · rename_i hpc
+    have hf : (s.kind p, p) ∈ s.files := h.own p (by simp [hpc, hasFile])
+    exact h.move p _ (fun _ => hf) (fun e => by cases e)
+  · exact h.move p _ (by simp [hasFile]) (fun e => by cases e)
   · exact h
 
 theorem minv_crash (s : St) (p : Pid) (h : MInv s) : MInv (crash s p) :=
